@@ -586,9 +586,15 @@ worker_thread_proc(void)
       break;
 
     Trace(("worker[%2u]: stalled", id));
+#ifdef KJN_LBZIP2_VERIF
+    verif_trace_event("W", "wait");
+#endif
     xwait(&sched_cond, &sched_mutex);
   }
 
+#ifdef KJN_LBZIP2_VERIF
+  verif_trace_event("W", "exit");
+#endif
   xbroadcast(&sched_cond);
   xunlock(&sched_mutex);
 
